@@ -62,3 +62,16 @@ Theorem c15_reference_sites_are_source :
   existsb (has_sub "o.ItemDecRef(t, i)") (call_list "Store.visitNodes") = true.
 Proof. exact Decisions.reference_sites. Qed.
 Print Assumptions c15_reference_sites_are_source.
+
+Theorem c15_snapshot_function_is_source :
+  body "Store.Snapshot" =
+    [SAssign [GVar "coll"] ":=" [GCall "copyColl" [GUn "*" (GCall "s.getColl" [])]];
+     SAssign [GVar "res"] ":="
+       [GUn "&" (GOther "Store{  coll:  &coll,  file:  s.file,  size:  atomic.LoadInt64(&s.size),  readOnly: true,  callbacks: s.callbacks, }")];
+     SRange (GVar "_") (GVar "name") (GCall "collNames" [GVar "coll"])
+       [SAssign [GVar "collOrig"] ":=" [GCall "[]" [GVar "coll"; GVar "name"]];
+        SAssign [GCall "[]" [GVar "coll"; GVar "name"]] "="
+          [GUn "&" (GOther "Collection{  store:  res,  compare: collOrig.compare,  rootLock: collOrig.rootLock,  root:  collOrig.rootAddRef(), }")]];
+     SReturn [GVar "res"]].
+Proof. exact Decisions.snapshot_function. Qed.
+Print Assumptions c15_snapshot_function_is_source.
